@@ -36,7 +36,7 @@ def run(ctx, col, tier):
              "multi-root tables; index re-basing follows unless sorting does it", floor=5, exhaustive=True)
     col.rule("R-CHECK", "checker skeletons: single-root = one DSU component; cyclic = an edge joins "
              "two already joined nodes (roots skipped); sorted = no child id below its parent id; "
-             "component labelling maps ids through a dict and jumps pointers to a fixpoint", floor=8)
+             "component labelling maps ids through a dict and jumps pointers to a fixpoint", floor=8, shape=True)
     col.rule("R-CG", "the only recursion on these paths is find_parent, whose depth is bounded by "
              "the rank (R-RANK)", floor=4)
     col.assumptions += ["the installed numpy stubs describe the installed numpy",
@@ -172,10 +172,10 @@ def rank(ctx, col):
     outer = [n for n in u.node.body if isinstance(n, ast.If)]
     if len(outer) != 1:
         raise AnalysisError("anchor-vanished: `if root_a != root_b` of union_sets")
-    col.check(norm_src(outer[0].test) in ("root_a != root_b", "root_b != root_a"), "R-RANK", u.qualname, u.loc(outer[0]),
+    col.shape(norm_src(outer[0].test) in ("root_a != root_b", "root_b != root_a"), "R-RANK", u.qualname, u.loc(outer[0]),
               "only different roots are joined", norm_src(outer[0].test), f"guard is `{norm_src(outer[0].test)}`", stmt="guard")
     roots = {norm_src(n.targets[0]): norm_src(n.value) for n in u.node.body if isinstance(n, ast.Assign)}
-    col.check(roots.get("root_a") == "self.find_parent(node_a)" and roots.get("root_b") == "self.find_parent(node_b)",
+    col.shape(roots.get("root_a") == "self.find_parent(node_a)" and roots.get("root_b") == "self.find_parent(node_b)",
               "R-RANK", u.qualname, u.loc(), "roots are found for both arguments", str(roots), f"{roots}", stmt="roots")
     chain = [s for s in outer[0].body if isinstance(s, ast.If)]
     if len(chain) != 1:
@@ -237,17 +237,17 @@ def rank(ctx, col):
         and norm_src(f.node.body[0].test) == f"{p} != self.element_parent[{p}]" \
         and norm_src(f.node.body[0].body[0]) == f"self.element_parent[{p}] = self.find_parent(self.element_parent[{p}])" \
         and body[1] == f"return self.element_parent[{p}]"
-    col.check(ok, "R-RANK", f.qualname, f.loc(), "find follows parents to the root and compresses the path",
+    col.shape(ok, "R-RANK", f.qualname, f.loc(), "find follows parents to the root and compresses the path",
               "", "find_parent is not `if x != parent[x]: parent[x] = find(parent[x]); return parent[x]`", stmt="find")
     s = repo.get_def("swcgeom.utils.dsu.DisjointSetUnion.is_same_set")
     rets = [n for n in own_nodes(s) if isinstance(n, ast.Return)]
     ok = len(rets) == 1 and norm_src(rets[0].value) == "self.find_parent(node_a) == self.find_parent(node_b)"
-    col.check(ok, "R-RANK", s.qualname, s.loc(), "joined <=> same root", "", "is_same_set does not compare the two roots",
+    col.shape(ok, "R-RANK", s.qualname, s.loc(), "joined <=> same root", "", "is_same_set does not compare the two roots",
               stmt="same")
     i = repo.get_def("swcgeom.utils.dsu.DisjointSetUnion.__init__")
     src = {norm_src(n.targets[0]): norm_src(n.value) for n in own_nodes(i) if isinstance(n, ast.Assign)}
     ok = src.get("self.element_parent") == "[i for i in range(node_number)]" and src.get("self.rank") == "[0 for _ in range(node_number)]"
-    col.check(ok, "R-RANK", i.qualname, i.loc(), "initially every element is its own root with rank 0", "",
+    col.shape(ok, "R-RANK", i.qualname, i.loc(), "initially every element is its own root with rank 0", "",
               f"initial state {src}", stmt="init")
 
 
@@ -300,10 +300,10 @@ def bif(ctx, col):
     ok = any(isinstance(n, ast.For) and norm_src(n.iter) == "zip(*topology)" and
              [norm_src(s) for s in n.body] == [f"children[{n.target.elts[1].id}].append({n.target.elts[0].id})"]
              for n in own_nodes(d) if isinstance(n, ast.For) and isinstance(n.target, ast.Tuple))
-    col.check(ok, "R-BIF", d.qualname, d.loc(), "children are grouped by parent id over every row", "",
+    col.shape(ok, "R-BIF", d.qualname, d.loc(), "children are grouped by parent id over every row", "",
               "children map is not children[pid].append(id) over zip(*topology)", stmt="children")
     last = d.node.body[-1]
-    col.check(isinstance(last, ast.Return) and norm_src(last.value) == "True", "R-BIF", d.qualname, d.loc(last),
+    col.shape(isinstance(last, ast.Return) and norm_src(last.value) == "True", "R-BIF", d.qualname, d.loc(last),
               "accepted when no node is rejected", "", "does not end with `return True`", stmt="accept")
 
 
@@ -329,20 +329,24 @@ def dispatch(ctx, col):
     for mem in members:
         if mem is False:
             continue
-        col.check(arms.get(mem) == want.get(mem), "R-DISPATCH", d.qualname, d.loc(m[0]), f"fix_roots={mem!r}",
-                  str(arms.get(mem)), f"arm for {mem!r} is {arms.get(mem)}, expected {want.get(mem)}", stmt=f"arm:{mem}")
-    col.check(default_raises and set(arms) <= set(x for x in members if x is not False), "R-DISPATCH", d.qualname, d.loc(m[0]),
+        if mem not in arms:
+            col.bad("R-DISPATCH", d.qualname, d.loc(m[0]), f"fix_roots={mem!r}",
+                    f"repair mode {mem!r} is offered by the signature but has no arm: it falls into the default", stmt=f"arm:{mem}")
+        else:
+            col.shape(arms.get(mem) == want.get(mem), "R-DISPATCH", d.qualname, d.loc(m[0]), f"fix_roots={mem!r}",
+                      str(arms.get(mem)), f"arm for {mem!r} is {arms.get(mem)}, expected {want.get(mem)}", stmt=f"arm:{mem}")
+    col.shape(default_raises and set(arms) <= set(x for x in members if x is not False), "R-DISPATCH", d.qualname, d.loc(m[0]),
               "unknown repair modes raise; no arm outside the literal", str(list(arms)), f"arms {list(arms)} / default raises={default_raises}",
               stmt="default")
     guard = repo.parent(m[0])
     ok = isinstance(guard, ast.If) and norm_src(guard.test) == "fix_roots is not False and np.count_nonzero(df[names.pid] == -1) > 1"
-    col.check(ok, "R-DISPATCH", d.qualname, d.loc(guard) if isinstance(guard, ast.If) else d.loc(), "repair runs only when requested and there are several roots",
+    col.shape(ok, "R-DISPATCH", d.qualname, d.loc(guard) if isinstance(guard, ast.If) else d.loc(), "repair runs only when requested and there are several roots",
               norm_src(guard.test) if isinstance(guard, ast.If) else "", "guard is not `fix_roots is not False and #roots > 1`", stmt="guard")
     ifs = [n for n in d.node.body if isinstance(n, ast.If) and norm_src(n.test) == "sort_nodes"]
     ok = len(ifs) == 1 and [norm_src(s) for s in ifs[0].body] == ["sort_nodes_(df)"] and len(ifs[0].orelse) == 1 \
         and isinstance(ifs[0].orelse[0], ast.If) and norm_src(ifs[0].orelse[0].test) == "reset_index" \
         and [norm_src(s) for s in ifs[0].orelse[0].body] == ["reset_index_(df)"] and ifs[0].lineno > guard.lineno
-    col.check(bool(ok), "R-DISPATCH", d.qualname, d.loc(ifs[0]) if ifs else d.loc(), "after repair: sort, else re-base ids", "",
+    col.shape(bool(ok), "R-DISPATCH", d.qualname, d.loc(ifs[0]) if ifs else d.loc(), "after repair: sort, else re-base ids", "",
               "normalisation ladder is not `if sort_nodes: sort_nodes_(df) elif reset_index: reset_index_(df)` after the repair", stmt="normalise")
     # reset_index_ re-bases ids and parents by the same amount
     r = repo.get_def(f"{NORM}.reset_index_")
@@ -353,7 +357,7 @@ def dispatch(ctx, col):
     pid_shift = [b for n in own_nodes(r) if isinstance(n, ast.Assign) and _pid_col(n.targets[0])
                  for b in ast.walk(n.value) if isinstance(b, ast.BinOp) and isinstance(b.op, ast.Sub) and _pid_col(b.left)]
     ok = ok and len(pid_shift) == 1 and norm_src(pid_shift[0].right) == "root_id"
-    col.check(ok, "R-DISPATCH", r.qualname, r.loc(), "ids and parent ids are re-based by the first root's id", "",
+    col.shape(ok, "R-DISPATCH", r.qualname, r.loc(), "ids and parent ids are re-based by the first root's id", "",
               "id / parent-id columns are not both shifted by root_id = id of the first root", stmt="rebase")
 
 
